@@ -1057,7 +1057,13 @@ span = span[{id}_size:]
                     continue;
                 }
                 if found {
-                    if let analyzer::Size::Static(w) = self.schema.field_size(f.key) {
+                    // A padded array occupies its padded size, not the size
+                    // of its elements.
+                    if let Some(w) = self
+                        .schema
+                        .padded_size(f.key)
+                        .or(self.schema.field_size(f.key).static_())
+                    {
                         offset_from_end += w;
                     }
                 }
